@@ -316,6 +316,19 @@ def _evaluate(case, d, out, info, mode):
             raise
         except BaseException as e:  # noqa - kept alive (with its traceback frames) until the verdict is taken
             exc = e
+        exc2 = None
+        if case.get("then"):
+            # history: the SAME LASFile is next asked to write to a stream of the caller's; whatever the first call
+            # did, that stream is the caller's and stays open, and nothing new is left open
+            follow = tr.wrap_external(io.StringIO(), label="follow-up-object")
+            try:
+                getattr(pr.las, case["then"])(follow)
+            except (KeyboardInterrupt, SystemExit, MemoryError):
+                tr.cleanup()
+                raise
+            except BaseException as e:  # noqa
+                exc2 = e
+            out.cls("then:" + case["then"], "then-outcome:" + ("returned" if exc2 is None else type(exc2).__name__))
     # ---- verdict: no gc.collect(), exc still referenced -------------------------------------
     label = exc_label(exc, tr, case)
     report = tr.report()
@@ -371,6 +384,10 @@ def _evaluate(case, d, out, info, mode):
                  "file opened with mode %r in %s is still open after the call %s\n%s"
                  % (r.mode, r.site, "raised" if exc is not None else "returned", describe()))
     for r in closed_callers:
+        if r.path == "follow-up-object":
+            out.fail("caller-object-closed|%s-after-%s|%s" % (case["then"], call, "first-call-returned" if exc is None else "first-call-raised"),
+                     "the stream given to %s() after the %s call was closed by lasio\n%s" % (case["then"], call, describe()))
+            continue
         out.fail("caller-object-closed|%s|%s" % (call, "returned" if exc is None else "raised"),
                  "the caller's file object was closed by lasio\n%s" % describe())
     for name in held:
@@ -386,7 +403,7 @@ def _evaluate(case, d, out, info, mode):
     if pr.caller_real is not None:
         pr.caller_real.close()
     out.sample = dict(case=case, ops=tr.ops, opens=tr.opens, outcome=label)
-    exc = None  # break the exception <-> frame cycle
+    exc = exc2 = None  # break the exception <-> frame cycle
 
 
 def selftest(pair):
@@ -593,6 +610,16 @@ def _enumerate_one(ctx, pair, wd, cap):
             raise HarnessError("open #%d of %d not reached (%r)" % (j, m, pair))
         out.cls("faultpoints|" + pair["call"], "openfaults|" + pair["call"])
         ctx.record(case, out, distinct=True)
+    if pair["call"].endswith("_path") or pair["call"] == "read_str":
+        # two-call histories: the call (clean, failing by itself, or failing at a sample of the fault points and at
+        # every open) followed by write()/to_csv() of the same object to a stream of the caller's
+        points = [dict(k=None)] + [dict(k=k) for k in sorted({1, max(1, n // 2), n}) if n >= 1] + [dict(k=None, kopen=j) for j in range(1, m + 1)]
+        for then in ("write", "to_csv"):
+            for pt in points:
+                case = dict(pair, then=then, **pt)
+                out, info = evaluate(case, workdir=wd)
+                out.cls("histories|" + pair["call"])
+                ctx.record(case, out, distinct=True)
     return complete
 
 
